@@ -259,4 +259,27 @@ mod verif_c03 {
         assert!(write_term(&mut w, K::Lit([b'x'], None, true)).is_ok());
         expect(&w, b"\"x\"");
     }
+
+    // ---- whole statements: N-Triples line and N-Quads line with / without graph name ----
+    //@STUBS
+    #[kani::proof]
+    #[kani::unwind(8)]
+    fn c03_nq_statement_line() {
+        use crate::serializer::nq::NqSerializer;
+        use sophia_api::serializer::QuadSerializer;
+        use sophia_api::source::IntoSource;
+        let named: bool = kani::any();
+        let (a, b, c, g) = (ascii(), ascii(), ascii(), ascii());
+        let q: sophia_api::quad::Spog<K> = ([K::Iri([a]), K::Iri([b]), K::Blank([c])], if named { Some(K::Iri([g])) } else { None });
+        let mut ser = NqSerializer::new(Sink { buf: [0; 48], n: 0 });
+        let ok = ser.serialize_quads([q].into_iter().into_source()).is_ok();
+        assert!(ok);
+        let w = ser.kani_sink();
+        if named {
+            // the graph name is appended only for named-graph quads; one statement per line
+            expect(w, &[b'<', a, b'>', b' ', b'<', b, b'>', b' ', b'_', b':', c, b' ', b'<', g, b'>', b'.', b'\n']);
+        } else {
+            expect(w, &[b'<', a, b'>', b' ', b'<', b, b'>', b' ', b'_', b':', c, b'.', b'\n']);
+        }
+    }
 }
